@@ -29,17 +29,25 @@ META = {
             "marker - in any position of the file), each followed by bodies whose verdict depends on the default settings "
             "(a name only known at run time, an unused variable); bodies that declare names before the statement that "
             "does not compile (read before it, after it, never); `@error` without a message and calls of builtins, "
-            "package functions and user functions with a wrong argument count; `defer` written directly in a body; "
+            "package functions and user functions with a wrong argument count; `defer` written directly in a body; `@capture` blocks that end normally, that raise, and that are left through "
+            "`return` (directly, from a loop, nested, inside a function the body calls - then passing, failing an "
+            "assertion, raising); "
             "a second model-free oracle requires every file to leave the three "
             "process-global compiler settings as a file without @compile leaves them.",
-    "note": "The model mirrors the code WITH fixes/C13.patch, fixes/C13-2.patch and fixes/C13-3.patch (five defects of "
-            "the unpatched tree are witnessed by C13_fail_line_old_counterexample, C13_split_old_counterexample, "
+    "note": "The model mirrors the code WITH fixes/C13.patch, fixes/C13-2.patch, fixes/C13-3.patch and fixes/C13-4.patch (six defects of "
+            "the unpatched tree are witnessed by C13_capture_return_old_counterexample, C13_fail_line_old_counterexample, C13_split_old_counterexample, "
             "C13_stale_try_old_counterexample, C13_scope_leak_old_counterexample, C13_eof_marker_old_counterexample and "
             "are reported as VIOLATION with concrete files against an unpatched tree: class "
             "bare-test-compile-error-fails-whole-file - a body without braces that declares a name and then does not "
             "compile left the name unread in the file scope, so the unused-variable check at the end of the file failed "
             "the whole file and no test ran (C13-2); class missing-eof-marker-swallows-later-tests - an `@compile eof=` "
-            "whose marker is missing took every later @test into its body (C13-3)). The file-scope model is tied to the "
+            "whose marker is missing took every later @test into its body (C13-3); class return-in-capture-loses-test-line - "
+            "a test body, or a function it calls, that executes `return` inside an `@capture v = { ... }` block "
+            "(docs/internals/TESTING.md '@capture') never reaches the block's EndCapture and callFramePop did not cut "
+            "the output-capture stack back, so the skeleton's EndCapture closed the abandoned capture instead of its own "
+            "and the test's own (PASS) line - and, when the test then fails an assertion or raises an error, its (FAIL) "
+            "line - was printed into a buffer nobody reads; later tests and the total were right (C13-4: the frame "
+            "records the output-stack depth and callFramePop restores it, on return and on unwind)). The file-scope model is tied to the "
             "code by the direct oracle only (the usage map is not observable through `ego test`). Trusted: Lean kernel; the harness; "
             "the parse of 'TEST: … (PASS|FAIL)' lines. Modelled, not verified: a body is run big-step (what it leaves "
             "behind + how it ends), addresses are block-relative, all try entries are catch-all, the text of a line is "
@@ -64,7 +72,8 @@ META = {
 REQUIRED = ["C13_isolated", "C13_all_reported", "C13_only_atFail_stops", "C13_block_restores", "C13_run_invariant",
             "C13_split_every_test", "C13_fail_line_old_counterexample", "C13_split_old_counterexample",
             "C13_stale_try_old_counterexample", "C13_eof_missing_marker_plain", "C13_eof_no_span_stops_at_test",
-            "C13_eof_marker_old_counterexample", "C13_failed_body_keeps_file_compiling", "C13_scope_leak_old_counterexample"]
+            "C13_eof_marker_old_counterexample", "C13_failed_body_keeps_file_compiling", "C13_scope_leak_old_counterexample",
+            "C13_capture_return_old_counterexample"]
 
 
 def run(ctx):
@@ -103,7 +112,8 @@ def run(ctx):
                 "templates alone and between two passing tests, each body that means the same without braces between a "
                 "passing and a failing brace-less test (non-compiling ones also alone), the 120 "
                 "orders of {pass, assert, run-time error, compile error, @fail}, every @compile-override body followed by "
-                "each default-setting-dependent body, the stale-try bodies; then random "
+                "each default-setting-dependent body, the stale-try bodies (the @capture bodies are ordinary templates of "
+                "corpus 1 and of the random stream); then random "
                 "files of 1-12 blocks (30%% pass, 20%% assert, 22%% run-time, 23%% compile error incl. missing/extra "
                 "brace or eof marker, 5%% @fail; in a third of the files half of the bodies lose their braces), random "
                 "descriptions (long, Unicode, containing '(PASS)')"
